@@ -60,6 +60,9 @@ func compositions(thorough bool) []Composition {
 		}
 	}
 	out = append(out, Composition{[]string{"at-commit", "at-rollback", "xa-commit", "tcc-commit"}, rounds})
+	// a burst of one kind: four concurrent streams of AT commits, whose phase-two commits keep arriving while the
+	// asynchronous commit worker is flushing earlier ones
+	out = append(out, Composition{[]string{"at-commit", "at-commit", "at-commit", "at-commit"}, 10})
 	return out
 }
 
@@ -203,6 +206,19 @@ func worker(c Composition) workerResult {
 			}()
 		}
 		go func() { wg.Wait(); close(done) }()
+		// the clean-up interval keeps elapsing while the transactions run: flushes of the asynchronous commit worker
+		// overlap with newly arriving phase-two commits
+		go func() {
+			for {
+				select {
+				case <-done:
+					return
+				default:
+					vtime.Tick(0)
+					time.Sleep(time.Millisecond)
+				}
+			}
+		}()
 		deadline := time.After(90 * time.Second)
 		select {
 		case <-done:
@@ -345,7 +361,7 @@ const clauseText = "no data race on the client's shared registries and caches; n
 
 func Run(r *rep.Run) {
 	thorough := r.Tier == "thorough"
-	r.Rule = "every multiset of 2 (thorough: also 3) kinds out of {AT commit, AT rollback, XA commit, TCC commit} plus all four together, each run as concurrent goroutines x 3 transactions x 3 rounds (thorough 10) on one initialised client with shared handles, phase-two requests delivered while the others run, a new database connection per AT transaction, in a -race build, free-running (no cooperative scheduler: its hand-offs would be happens-before edges). Compositions are enumerated exhaustively; interleavings inside a composition are those the Go scheduler produced - NOT enumerated. Schedule-exhaustive exploration of the concurrent pieces is in C06 (fence races), C11 (async worker), C14 (remoting), C15 (phase-two dispatch)."
+	r.Rule = "every multiset of 2 (thorough: also 3) kinds out of {AT commit, AT rollback, XA commit, TCC commit} plus all four together and a burst of four AT-commit streams, with the clean-up interval elapsing continuously while they run, each run as concurrent goroutines x 3 transactions x 3 rounds (thorough 10) on one initialised client with shared handles, phase-two requests delivered while the others run, a new database connection per AT transaction, in a -race build, free-running (no cooperative scheduler: its hand-offs would be happens-before edges). Compositions are enumerated exhaustively; interleavings inside a composition are those the Go scheduler produced - NOT enumerated. Schedule-exhaustive exploration of the concurrent pieces is in C06 (fence races), C11 (async worker), C14 (remoting), C15 (phase-two dispatch)."
 	r.Assume = []string{"race detection is dynamic: a race is found only if both accesses occur in one of the runs", "a deadline (90 s per round) that expires while goroutines are still running is reported as not judged (exhaustive=false), never as a violation; a lock-up is reported only when the whole process is blocked"}
 	r.Exhaustive = false
 	if w := os.Getenv("VERIF_C20_WORKER"); w != "" {
